@@ -32,6 +32,13 @@ def shapes(tier):
         sc = mk(size, 1, 1, 1000, 1000, pf=0xFE, ps=0x31, third=False)
         sc["expect"] = {"all": True, "idle": True, "free": True}
         out.append((dll, "bam", sc))
+        if tier != "quick" or dll == "j1939-22":
+            # the responder does not exist: the originator gives up after T3 (abort, release); with the application
+            # submitting the next message while the job thread is held on that path
+            sc = mk(size, 1, 1, 1000, 1000, third=False)
+            sc["nodes"] = sc["nodes"][:1]
+            sc["expect"] = {"all": False, "idle": True, "free": True}
+            out.append((dll, "t3", sc))
         if tier != "quick" or dll == "j1939-21":
             # two sessions of one originator at the same time (to two destinations): the pass walks a snapshot of several keys
             sc = mk(size, 2, 2, 1000, 1000, third=True)
@@ -95,6 +102,8 @@ def run(chk, replay):
         npoints += len(pts)
         traces = []
         for i, pt in enumerate(pts):
+            if quick and name == "two" and i % 2 != chk.seed % 2:
+                continue
             for h in ([HOLDS[i % 3]] if quick else HOLDS):
                 traces.append(preempt.run(sc, pt, h)[0])
         for _ in range(40 if quick else 600):
@@ -103,10 +112,10 @@ def run(chk, replay):
         if name != "two":
             # the application submits the next message for the same destination while the job thread is held: it is
             # either refused (pair busy) or accepted - and then delivered like any other
-            sc2 = dict(sc, expect=dict(sc["expect"], all=True))
+            sc2 = dict(sc, expect=dict(sc["expect"]))
             t_first = min(t for t in p0.point_time.values())
             for i, pt in enumerate(pts):
-                if p0.point_time[pt] == t_first or (quick and i % 3 != chk.seed % 3):
+                if p0.point_time[pt] == t_first or (quick and i % 5 != chk.seed % 5):
                     continue              # (not the start-up pass: the transfer has not begun, the other stacks do not exist yet)
                 traces.append(preempt.run(sc2, pt, 1000, during=follow_up(sc))[0])
         chk.validate(spec + ".tla", spec + ".cfg", traces, "%s%s" % (dll[-2:], name), sig=sig, nontrivial=nontrivial)
